@@ -8,6 +8,7 @@ import (
 	"github.com/consensys/gnark/frontend"
 	gl "github.com/wormhole-foundation/example-near-light-client/goldilocks"
 
+	"verif/engine/ref"
 	"verif/engine/smt"
 	"verif/engine/sym"
 )
@@ -223,16 +224,24 @@ func mulAddLeaves() []leaf {
 	lt := func(o string) string { return fmt.Sprintf("(and (<= 0 %s) (< %s %s))", o, o, ps) }
 	return []leaf{
 		{name: "MulAdd", gadget: "MulAdd", ins: []string{"a", "b", "c"}, pre: canon("a", "b", "c"), sound: true, complete: true,
-			run:  func(ch *gl.Chip, in map[string]gl.Variable) []frontend.Variable { return one(ch.MulAdd(v(in, "a"), v(in, "b"), v(in, "c"))) },
+			run: func(ch *gl.Chip, in map[string]gl.Variable) []frontend.Variable {
+				return one(ch.MulAdd(v(in, "a"), v(in, "b"), v(in, "c")))
+			},
 			spec: []string{modp("(+ (* a b) c)")}, post: lt("out0")},
 		{name: "Add", gadget: "Add", ins: []string{"a", "b"}, pre: canon("a", "b"), sound: true, complete: true,
-			run:  func(ch *gl.Chip, in map[string]gl.Variable) []frontend.Variable { return one(ch.Add(v(in, "a"), v(in, "b"))) },
+			run: func(ch *gl.Chip, in map[string]gl.Variable) []frontend.Variable {
+				return one(ch.Add(v(in, "a"), v(in, "b")))
+			},
 			spec: []string{modp("(+ a b)")}, post: lt("out0")},
 		{name: "Sub", gadget: "Sub", ins: []string{"a", "b"}, pre: canon("a", "b"), sound: true, complete: true,
-			run:  func(ch *gl.Chip, in map[string]gl.Variable) []frontend.Variable { return one(ch.Sub(v(in, "a"), v(in, "b"))) },
+			run: func(ch *gl.Chip, in map[string]gl.Variable) []frontend.Variable {
+				return one(ch.Sub(v(in, "a"), v(in, "b")))
+			},
 			spec: []string{modp("(- a b)")}, post: lt("out0")},
 		{name: "Mul", gadget: "Mul", ins: []string{"a", "b"}, pre: canon("a", "b"), sound: true, complete: true,
-			run:  func(ch *gl.Chip, in map[string]gl.Variable) []frontend.Variable { return one(ch.Mul(v(in, "a"), v(in, "b"))) },
+			run: func(ch *gl.Chip, in map[string]gl.Variable) []frontend.Variable {
+				return one(ch.Mul(v(in, "a"), v(in, "b")))
+			},
 			spec: []string{modp("(* a b)")}, post: lt("out0")},
 	}
 }
@@ -251,13 +260,19 @@ func noReduceLeaves() []leaf {
 	cong := func(x string) string { return fmt.Sprintf("(= (mod out0 %s) (mod %s %s))", ps, x, ps) }
 	return []leaf{
 		{name: "AddNoReduce", ins: []string{"a", "b"}, pre: canon("a", "b"), sound: true,
-			run:  func(ch *gl.Chip, in map[string]gl.Variable) []frontend.Variable { return one(ch.AddNoReduce(v(in, "a"), v(in, "b"))) },
+			run: func(ch *gl.Chip, in map[string]gl.Variable) []frontend.Variable {
+				return one(ch.AddNoReduce(v(in, "a"), v(in, "b")))
+			},
 			post: cong("(+ a b)")},
 		{name: "SubNoReduce", ins: []string{"a", "b"}, pre: canon("a", "b"), sound: true,
-			run:  func(ch *gl.Chip, in map[string]gl.Variable) []frontend.Variable { return one(ch.SubNoReduce(v(in, "a"), v(in, "b"))) },
+			run: func(ch *gl.Chip, in map[string]gl.Variable) []frontend.Variable {
+				return one(ch.SubNoReduce(v(in, "a"), v(in, "b")))
+			},
 			post: cong("(- a b)")},
 		{name: "MulNoReduce", ins: []string{"a", "b"}, pre: canon("a", "b"), sound: true,
-			run:  func(ch *gl.Chip, in map[string]gl.Variable) []frontend.Variable { return one(ch.MulNoReduce(v(in, "a"), v(in, "b"))) },
+			run: func(ch *gl.Chip, in map[string]gl.Variable) []frontend.Variable {
+				return one(ch.MulNoReduce(v(in, "a"), v(in, "b")))
+			},
 			post: cong("(* a b)")},
 		{name: "MulAddNoReduce", ins: []string{"a", "b", "c"}, pre: canon("a", "b", "c"), sound: true,
 			run: func(ch *gl.Chip, in map[string]gl.Variable) []frontend.Variable {
@@ -296,7 +311,6 @@ func inverseLeaf() leaf {
 		post: fmt.Sprintf("(and (<= 0 out0) (< out0 %s) (ite (= x 0) (= out1 0) (and (= out1 1) (= (mod (* x out0) %s) 1))))", ps, ps)}
 }
 
-
 func runC07(r *Run) {
 	r.Functions = []string{"goldilocks.(*Chip).Add", "goldilocks.(*Chip).Sub", "goldilocks.(*Chip).Mul", "goldilocks.(*Chip).MulAdd", "goldilocks.(*Chip).AddNoReduce", "goldilocks.(*Chip).SubNoReduce", "goldilocks.(*Chip).MulNoReduce", "goldilocks.(*Chip).MulAddNoReduce", "goldilocks.(*Chip).Reduce", "goldilocks.(*Chip).ReduceWithMaxBits", "goldilocks.(*Chip).Inverse", "goldilocks.MulAddHint/ReduceHint/InverseHint (as honest prover models)"}
 	for _, lf := range mulAddLeaves() {
@@ -311,10 +325,64 @@ func runC07(r *Run) {
 	setHooks(factHooksL0)
 	rangeLemmas(r, rcConfig{capPlain, false, ""}, []rangeItem{{name: "rangeGL[layered]", bound: P, gadget: "RangeCheck", compl: "direct", body: func(chip *gl.Chip, x gl.Variable) { chip.RangeCheck(x) }}})
 	clearHooks()
+	sharedOperandCases(r)
 	r.Bounds["operands"] = "all canonical operand values (symbolic, < p); Reduce input any value in [0, r) for soundness and < 2^144*p for acceptance"
 	r.Bounds["RANGE_CHECK_NB_BITS"] = gl.RANGE_CHECK_NB_BITS
 	r.Assumptions = append(r.Assumptions,
 		"range checks inside the gadgets are replaced by the facts 0<=x<2^n / x<p; these facts are established per configuration by the C06 obligations (layered lemma re-run here)",
 		"existence of modular inverses (p prime) is assumed for the completeness of Inverse")
 	r.Outside = append(r.Outside, "non-canonical operands of MulAdd/Add/Sub/Mul (callers must supply canonical values; checked per call site in C05)")
+}
+
+// sharedOperandCases: gadgets that accumulate with api.MulAcc, called so that an operand is used
+// again after the call. gnark's builders may extend the first operand of MulAcc in place; the cases
+// run in the symbolic API's alias mode, where they always do, and a disagreement is replayed on a
+// circuit compiled with the real R1CS builder.
+func sharedOperandCases(r *Run) {
+	k := func(v uint64) gl.Variable { return gl.NewVariable(v) }
+	var cs fieldCase
+	cs = fieldCase{name: "MulAddNoReduce[addend used again afterwards]", alias: true, bound: "all canonical a, b, c (symbolic); acc = a*3+c, then a*5+acc and b*7+acc", build: func(fc *fctx) ([]frontend.Variable, []*ref.N) {
+		a, ra := fc.glIn("a")
+		b, rb := fc.glIn("b")
+		c, rc := fc.glIn("c")
+		acc := fc.chip.MulAddNoReduce(a, k(3), c)
+		r1 := fc.chip.MulAddNoReduce(a, k(5), acc)
+		r2 := fc.chip.MulAddNoReduce(b, k(7), acc)
+		o1, o2 := fc.chip.Reduce(r1), fc.chip.Reduce(r2)
+		B := fc.rb
+		racc := B.Add(B.Mul(ra, B.ConstU(3)), rc)
+		return []frontend.Variable{o1.Limb, o2.Limb}, []*ref.N{B.Add(B.Mul(ra, B.ConstU(5)), racc), B.Add(B.Mul(rb, B.ConstU(7)), racc)}
+	}}
+	cs.acceptReplay = func() string { return sharedOperandReplay(cs, r) }
+	if q := runFieldCase(r, "shared-operand", cs, nil); q != nil {
+		r.Sample(q.stats())
+	}
+	r.Discharge()
+}
+
+// sharedOperandReplay: random canonical inputs, the reference's results as expected outputs, on the
+// real R1CS builder.
+func sharedOperandReplay(c fieldCase, r *Run) string {
+	names, his, _, refs, e := engineInputs(c, nil)
+	if e != "" || len(refs) == 0 {
+		return ""
+	}
+	for seed := 0; seed < 3; seed++ {
+		env := map[string]*big.Int{}
+		for i, n := range names {
+			env[n] = ref.UFEval(fmt.Sprintf("shared-operand-%d-%d", r.Seed, seed), i, false, nil)
+			if his[i].Cmp(sym.Pm1) < 0 {
+				env[n].Mod(env[n], new(big.Int).Add(his[i], big.NewInt(1)))
+			}
+		}
+		memo := map[*ref.N]*big.Int{}
+		var want []*big.Int
+		for _, n := range refs {
+			want = append(want, ref.Eval(n, func(h any) *big.Int { return env[h.(*sym.Term).Name] }, memo))
+		}
+		if ok, msg := runCaseOnR1CS(c, names, env, want); !ok {
+			return "the circuit compiled with gnark's R1CS builder rejects the true results of " + c.name + " (" + msg + "): an operand handed to api.MulAcc is extended in place and read again afterwards"
+		}
+	}
+	return ""
 }
